@@ -634,6 +634,11 @@ def join_lines(text):
             while i + 1 < len(lines) and re.match(r'\s+(cleanup|catch|filter)\b', lines[i + 1]):
                 i += 1
                 ln += ' ' + lines[i].strip()
+        elif (' invoke ' in ln or s.startswith('invoke ')) and ' to label ' not in ln:
+            # "invoke ...(args)\n          to label %ok unwind label %lp"
+            if i + 1 < len(lines) and re.match(r'\s+to label\b', lines[i + 1]):
+                i += 1
+                ln += ' ' + lines[i].strip()
         out.append(ln)
         i += 1
     return out
